@@ -19,13 +19,23 @@ Theorem C19_provider_https_only : forall pc st ins,
 Proof. exact provider_https_only. Qed.
 Print Assumptions C19_provider_https_only.
 
-(* a consumer with force_ssl_connect=True (repaired code: fixed = true): every history, every device / hosted /
-   subscription-manager address of any scheme, own or shared event sink, with or without alternative host name *)
+(* a consumer with force_ssl_connect=True (repaired code: fixed = true): every history - including any number of
+   stop_all (CStop), start_all again (CStart) and restart() (CRestart) against peers of either kind -, every device /
+   hosted / subscription-manager address of any scheme, own or shared event sink, with or without alternative host
+   name *)
 Theorem C19_consumer_enforced_never_plain : forall cc i ins,
   c_mode cc = CEnforced -> c_ctor (c_mode cc) = Some i ->
   Forall (secure RC) (crun true cc (c_init i) ins).
 Proof. exact (fun cc i ins Hm Hc => consumer_enforced_never_plain true cc i ins Hm Hc (or_introl eq_refl)). Qed.
 Print Assumptions C19_consumer_enforced_never_plain.
+
+(* the invariant behind it: is_ssl_connection - the only memory of force_ssl_connect=True - is still True after every
+   history; a stop_all / restart that forgets it turns the consumer into an optional one *)
+Theorem C19_consumer_enforced_stays_enforced : forall cc i ins,
+  c_mode cc = CEnforced -> c_ctor (c_mode cc) = Some i ->
+  isc (cfinal true cc (c_init i) ins) = Some true.
+Proof. exact (fun cc i ins Hm Hc => consumer_enforced_stays_enforced true cc i ins Hm Hc (or_introl eq_refl)). Qed.
+Print Assumptions C19_consumer_enforced_stays_enforced.
 
 (* the code as found (fixed = false) violates the statement: an enforced consumer that is given a plaintext
    shared HTTP server places an http NotifyTo address in its Subscribe request *)
@@ -93,6 +103,17 @@ Example C19_provider_nonvacuous :
      Create RP (Some PClient) HIp; Conn RP true (Some PClient); Attempt RP true false HsSslError;
      Create RP (Some PClient) HIp; Conn RP true (Some PClient); Attempt RP true true HsOk;
      Adv KSubMgrEnd RP (mkaddr Https HIp)].
+Proof. reflexivity. Qed.
+
+(* life cycle: TLS start, stop_all, then a plaintext peer answers at the device address (also via restart()): the
+   enforced consumer gets ssl.SSLError both times and opens nothing in plaintext *)
+Example C19_consumer_restart_nonvacuous :
+  let cc := mkcconf CEnforced Own false in
+  let x := mkaddr Https HIp in
+  crun true cc (c_init (Some true)) [CStart x true []; CStop; CStart x false []; CRestart x false []] =
+    [Create RC (Some CClient) HIp; Conn RC true (Some CClient); Attempt RC true true HsOk; Wrap CServer true;
+     Create RC (Some CClient) HIp; Conn RC true (Some CClient); Attempt RC true false HsSslError;
+     Create RC (Some CClient) HIp; Conn RC true (Some CClient); Attempt RC true false HsSslError].
 Proof. reflexivity. Qed.
 
 (* the hypothesis "enforced" is needed: with force_ssl_connect=False the consumer falls back to plaintext when the
